@@ -35,9 +35,20 @@ Definition positions_where (Q : resource -> bool) (rs : list resource) : list na
 Definition index_ok (rs : list resource) (ix : index) : Prop :=
   forall k, bucket ix k = positions_where (in_bucket k) rs.
 
+(* leading literal text of a template: what the formatter carries / what the pattern matches *)
+Fixpoint lead_f (pat : list item) : str :=
+  match pat with Lit f _ :: r => f ++ lead_f r | _ => [] end.
+Fixpoint lead_m (pat : list item) : str :=
+  match pat with Lit _ m :: r => m ++ lead_m r | _ => [] end.
+Fixpoint after_lead (pat : list item) : list item :=
+  match pat with Lit _ _ :: r => after_lead r | _ => pat end.
+
+(* the pattern matches the path_safe form of what the formatter says *)
+Definition lead_ok (pat : list item) : Prop := path_safe_dec (lead_f pat) = lead_m pat.
+
 Inductive res_ok : resource -> Prop :=
-| ok_plain p rt : res_ok (RPlain p rt)
-| ok_dyn o pat rt : res_ok (RDyn o (formatter_of pat) pat rt)
+| ok_plain p rt : memN ik_brace p = false -> res_ok (RPlain p rt)
+| ok_dyn o pat rt : lead_ok pat -> res_ok (RDyn o (formatter_of pat) pat rt)
 | ok_static p rt : res_ok (RStatic p rt)
 | ok_sub p rs ix : index_ok rs ix -> Forall res_ok rs -> res_ok (RSub p rs ix)
 | ok_dom d rs ix : index_ok rs ix -> Forall res_ok rs -> res_ok (RDom d rs ix).
@@ -252,6 +263,8 @@ Qed.
 Section Agreement.
   Variables (host : option str) (p m : str).
   Hypothesis Hp : starts_with [SLASH] p = true.
+  (* p is a path_safe: yarl's decoder leaves it unchanged (sampled law, see harness quoting_laws) *)
+  Hypothesis Hdec : path_safe_dec p = p.
 
   Let p_nonempty : p <> [].
   Proof. intros E. rewrite E in Hp. discriminate. Qed.
@@ -266,41 +279,58 @@ Section Agreement.
     (is_dom r = false -> ~ In (index_key r) (ancestors p) -> frule r = ONo []).
 
   (* the literal head of a template is a prefix of everything it matches *)
-  Lemma match_canon_prefix pat : forall s d, match_items pat s = Some d -> canon_prefix (formatter_of pat) s.
+  Lemma match_lead pat : forall s d, match_items pat s = Some d ->
+    exists rest, s = lead_m pat ++ rest /\ (after_lead pat = [] -> rest = []).
   Proof.
     induction pat as [|it pat IH]; intros s d H.
-    - simpl in H. destruct s; [|discriminate]. reflexivity.
-    - destruct it as [l|n c mn].
+    - simpl in H. destruct s; [|discriminate]. exists []. auto.
+    - destruct it as [f l|n c mn].
       + cbn [match_items] in H. destruct (strip_prefix l s) as [r|] eqn:S; [|discriminate].
-        apply strip_prefix_some in S. subst s. specialize (IH r d H).
-        unfold canon_prefix in *. cbn [formatter_of]. rewrite memN_app.
-        destruct (memN ik_brace l) eqn:El.
-        * simpl. destruct (before_char_prefix ik_brace l) as [t Ht].
-          assert (Hb := before_char_app_mem ik_brace l (formatter_of pat) El).
-          rewrite Hb. exists (t ++ r). rewrite app_assoc, <- Ht. reflexivity.
-        * simpl. destruct (memN ik_brace (formatter_of pat)).
-          -- destruct IH as [rest IH]. rewrite before_char_app_nomem by assumption.
-             exists rest. rewrite IH, app_assoc. reflexivity.
-          -- subst r. reflexivity.
-      + unfold canon_prefix. cbn [formatter_of]. simpl. exists s. reflexivity.
+        apply strip_prefix_some in S. subst s. destruct (IH r d H) as (rest & -> & Hr).
+        exists rest. cbn [lead_m after_lead]. rewrite <- app_assoc. auto.
+      + exists s. cbn [lead_m after_lead]. split; [reflexivity|discriminate].
   Qed.
 
-  Lemma leaf_no_match_plain path rt :
+  Lemma formatter_lead pat : formatter_of pat = lead_f pat ++ formatter_of (after_lead pat).
+  Proof.
+    induction pat as [|[f l|n c mn] pat IH]; [reflexivity| |reflexivity].
+    cbn [formatter_of lead_f after_lead]. rewrite IH, <- app_assoc. reflexivity.
+  Qed.
+
+  Lemma after_lead_head pat : after_lead pat = [] \/ exists n c mn r, after_lead pat = Hole n c mn :: r.
+  Proof. induction pat as [|[f l|n c mn] pat IH]; [auto|exact IH|right; exists n, c, mn, pat; reflexivity]. Qed.
+
+  Lemma before_brace_lead pat : memN ik_brace (formatter_of pat) = true ->
+    exists u, lead_f pat = before_char ik_brace (formatter_of pat) ++ u.
+  Proof.
+    intros Hb. rewrite formatter_lead in *. destruct (after_lead_head pat) as [E|(n & c & mn & r & E)]; rewrite E in *.
+    - cbn [formatter_of] in *. rewrite app_nil_r in *. apply before_char_prefix.
+    - cbn [formatter_of]. cbn [app]. apply (before_char_app_prefix ik_brace (lead_f pat) (n ++ 125 :: formatter_of r)).
+  Qed.
+
+  Lemma leaf_no_match_plain path rt : memN ik_brace path = false ->
     ~ In (index_key (RPlain path rt)) (ancestors p) -> leaf_outcome (RPlain path rt) p m = ONo [].
   Proof.
-    intros H. simpl. destruct (list_eqb path p) eqn:E; [|reflexivity].
+    intros Hb H. simpl. destruct (list_eqb path p) eqn:E; [|reflexivity].
     apply list_eqb_eq in E. subst path. exfalso. apply H. unfold index_key. simpl.
-    apply key_anc; [assumption|]. unfold canon_prefix. destruct (memN ik_brace p); [|reflexivity].
-    apply before_char_prefix.
+    apply key_anc_whole; [assumption|assumption|]. symmetry. exact Hdec.
   Qed.
 
-  Lemma leaf_no_match_dyn o pat rt :
+  Lemma leaf_no_match_dyn o pat rt : lead_ok pat ->
     ~ In (index_key (RDyn o (formatter_of pat) pat rt)) (ancestors p) ->
     leaf_outcome (RDyn o (formatter_of pat) pat rt) p m = ONo [].
   Proof.
-    intros H. simpl. destruct (match_items pat p) as [d|] eqn:E; [|reflexivity].
-    exfalso. apply H. unfold index_key. simpl. apply key_anc; [assumption|].
-    eapply match_canon_prefix. eassumption.
+    intros Hlead H. simpl. destruct (match_items pat p) as [d|] eqn:E; [|reflexivity].
+    exfalso. apply H. unfold index_key. simpl.
+    destruct (match_lead pat p d E) as (rest & Hpe & Hrest). unfold lead_ok in Hlead.
+    destruct (memN ik_brace (formatter_of pat)) eqn:Hb.
+    - apply (key_anc_brace _ (lead_f pat) rest p p_nonempty Hb (before_brace_lead pat Hb)).
+      rewrite Hlead. exact Hpe.
+    - apply key_anc_whole; [exact p_nonempty|exact Hb|].
+      destruct (after_lead_head pat) as [E0|(n & c & mn & r & E0)].
+      + rewrite formatter_lead, E0. cbn [formatter_of]. rewrite app_nil_r, Hlead, Hpe, (Hrest E0), app_nil_r. reflexivity.
+      + rewrite formatter_lead, E0, memN_app in Hb. cbn [formatter_of app memN] in Hb.
+        rewrite N.eqb_refl, orb_true_r in Hb. discriminate.
   Qed.
 
   (* router level: given per-resource agreement, the walk and the rule give the same answer *)
@@ -397,12 +427,14 @@ Proof.
   exfalso. apply H. apply literal_prefix_ok_iff in E; auto. apply index_key_of_nonempty.
 Qed.
 
-Lemma all_agree host p m : starts_with [SLASH] p = true -> forall r, res_ok r -> agrees host p m r.
+Lemma all_agree host p m : starts_with [SLASH] p = true -> path_safe_dec p = p ->
+  forall r, res_ok r -> agrees host p m r.
 Proof.
-  intros Hp.
+  intros Hp Hdec.
   assert (Hne : p <> []) by (intros E; rewrite E in Hp; discriminate).
   induction r using resource_ind'; intros Hok; unfold agrees, fix_, frule.
-  - split; [discriminate|]. split; [reflexivity|]. intros _ H. apply leaf_no_match_plain; assumption.
+  - inversion Hok; subst. split; [discriminate|]. split; [reflexivity|]. intros _ H.
+    apply leaf_no_match_plain; assumption.
   - inversion Hok; subst. split; [discriminate|]. split; [reflexivity|].
     intros _ H0. apply leaf_no_match_dyn; assumption.
   - split; [discriminate|]. rewrite frule_static. split.
@@ -424,10 +456,10 @@ Proof.
 Qed.
 
 Theorem index_eq_rule rt host p m :
-  router_ok rt -> starts_with [SLASH] p = true ->
+  router_ok rt -> starts_with [SLASH] p = true -> path_safe_dec p = p ->
   resolve_ix rt host p m = resolve_rule rt host p m.
 Proof.
-  intros [Hix Hrs] Hp. unfold resolve_ix, resolve_rule.
+  intros [Hix Hrs] Hp Hdec. unfold resolve_ix, resolve_rule.
   apply router_agree; [assumption|assumption|].
   rewrite Forall_forall in *. intros r Hr. apply all_agree; auto.
 Qed.
